@@ -206,7 +206,11 @@ func Sm2Verify(pub *PublicKey, msg, uid []byte, r, s *big.Int) bool {
 	var x *big.Int
 	x1, y1 := c.ScalarBaseMult(s.Bytes())
 	x2, y2 := c.ScalarMult(pub.X, pub.Y, t.Bytes())
-	x, _ = c.Add(x1, y1, x2, y2)
+	x, y := c.Add(x1, y1, x2, y2)
+	if x.Sign() == 0 && y.Sign() == 0 {
+		// [s]G + [t]P is the point at infinity: there is no x1 to compare with
+		return false
+	}
 
 	x.Add(x, e)
 	x.Mod(x, N)
@@ -242,7 +246,11 @@ func Verify(pub *PublicKey, hash []byte, r, s *big.Int) bool {
 	var x *big.Int
 	x1, y1 := c.ScalarBaseMult(s.Bytes())
 	x2, y2 := c.ScalarMult(pub.X, pub.Y, t.Bytes())
-	x, _ = c.Add(x1, y1, x2, y2)
+	x, y := c.Add(x1, y1, x2, y2)
+	if x.Sign() == 0 && y.Sign() == 0 {
+		// [s]G + [t]P is the point at infinity: there is no x1 to compare with
+		return false
+	}
 
 	e := new(big.Int).SetBytes(hash)
 	x.Add(x, e)
